@@ -55,6 +55,7 @@ func weightsFor(profile string) map[string]int {
 		base["sign_all"] = 10
 	case "C02", "C03":
 		base["val_recreate"] = 3
+		base["rotate_reclaim"] = 3
 		base["byz_claim"] = 8
 		base["orch_poll"] = 14
 		base["stake"] = 6
@@ -71,6 +72,7 @@ func weightsFor(profile string) map[string]int {
 		base["oracle_round"] = 3
 		base["holders_only"] = 2
 		base["stake"] = 4
+		base["gov"] = 3
 		base["set_keys"] = 3
 	case "C16":
 		base["confirm_fuzz"] = 18
@@ -242,11 +244,20 @@ func (g *Gen) Step() {
 			w.St.Probe("multi-message-send")
 		}
 		if g.R.Intn(25) == 0 { // operation-level faults: unknown denom / chain, overdraft
-			switch g.R.Intn(3) {
+			switch g.R.Intn(5) {
 			case 0:
 				in.Denom = "nosuch"
 			case 1:
 				in.Chain = "solana"
+			case 2, 3:
+				// a negative bridge fee smaller in magnitude than the amount (amount + fee stays positive)
+				a := bigOf(in.Amt)
+				if a.Sign() > 0 {
+					in.Fee = "-" + new(big.Int).Add(new(big.Int).Quo(a, big.NewInt(int64(2+g.R.Intn(9)))), big.NewInt(0)).String()
+					if in.Fee == "-0" {
+						in.Fee = "-1"
+					}
+				}
 			default:
 				in.Amt = new(big.Int).Add(funds, big.NewInt(1)).String()
 			}
@@ -403,6 +414,20 @@ func (g *Gen) Step() {
 				g.emit(Intent{T: "byz_claim", V: v, Chain: ch, Pick: g.R.Intn(16), Net: ""})
 			}
 		}
+	case "rotate_reclaim":
+		// a validator reports a fresh event, registers new delegate keys, and its (old) orchestrator reports again
+		v := g.R.Intn(len(w.Vals))
+		t := g.token()
+		g.emit(Intent{T: "orch_poll", V: v, Chain: t.Chain, N: 10})
+		g.emit(Intent{T: "block", Dt: 5, N: 1})
+		g.emit(Intent{T: "ext_deposit", U: g.R.Intn(len(w.Users)), Chain: t.Chain, Chain2: "hub", Denom: t.Denom, Amt: g.amount(big.NewInt(1000000)), Fee: "0"})
+		g.emit(Intent{T: "orch_poll", V: v, Chain: t.Chain, N: 10})
+		g.emit(Intent{T: "block", Dt: 5, N: 1})
+		g.emit(Intent{T: "set_keys", V: v, Chain: t.Chain, Op: "fresh", Pick: g.R.Intn(50)})
+		g.emit(Intent{T: "block", Dt: 5, N: 1})
+		g.emit(Intent{T: "orch_poll", V: v, Chain: t.Chain, N: 10})
+		g.emit(Intent{T: "block", Dt: 5, N: 1})
+		w.St.Probe("rotate-reclaim-scenario")
 	case "val_recreate":
 		// a validator votes on a fresh event nobody else has reported yet, leaves staking completely, is
 		// created again under the same operator address and reports again
@@ -523,6 +548,15 @@ func (g *Gen) Step() {
 	case "gov":
 		// a proposal, yes votes of every validator, then the voting period passes
 		t := g.token()
+		if g.Profile == "C15" && g.R.Intn(4) == 0 {
+			// the served chains change (an empty list pauses the bridge); the parameter must survive a restart as it is
+			g.emit(Intent{T: "gov", Op: "param_chains", V: g.R.Intn(len(w.Vals)), Amt: []string{`[]`, `["ethereum","minter","hub"]`, `["minter","hub"]`, `["ethereum","bsc","minter","hub"]`}[g.R.Intn(4)]})
+			g.emit(Intent{T: "block", Dt: 5, N: 1})
+			g.emit(Intent{T: "gov", Op: "vote"})
+			g.emit(Intent{T: "block", Dt: 5, N: 1})
+			g.emit(Intent{T: "block", Dt: 25, N: 1})
+			break
+		}
 		if (g.Profile == "C06" || g.Profile == "C05") && g.R.Intn(3) == 0 {
 			// only where nothing depends on the configured timeout: a parameter change
 			g.emit(Intent{T: "gov", Op: "param", V: g.R.Intn(len(w.Vals)), Amt: []string{"60000", "600000", "5000", "86400000"}[g.R.Intn(4)]})
